@@ -1,7 +1,7 @@
 PROP = dict(
     coq=["Seen/SeenHarness.vo"],
     legs=[
-        dict(driver="seen", binary="zseen", quick=500, thorough=12000, shard=50,
+        dict(driver="seen", binary="zseen", quick=500, thorough=8000, shard=50,
              monitors=["seen_after_record (a URL checked before is skipped, except seed/redirect over asset-only, then recorded as seed)",
                        "seen_only_if_reported (a node is marked only if the store held its key; only nodes at the working depth are marked)",
                        "no_two_nonseed_same_url (after preprocess one non-seed node per URL)",
